@@ -344,7 +344,7 @@ def run(ctx, rep):
             ok = e[2] not in U
             rep.check("C15.b", f"{fn_key(m)}/{e[2]}", ok, where=e[3],
                       what=f"entry {fn_key(m)} rewrites the stored config at {e[2]} " + ("only behind the append-only guard (escape: set_append_only = Some(false))" if ok else "WITHOUT passing the append-only guard"))
-    rep.floor("C15.b", "(entry, W(Config)) pairs", ncfg, 4)
+    rep.floor("C15.b", "(entry, W(Config)) pairs", ncfg, 3)
 
     # ---- C15.a2: nothing touches storage before the guard in its frame ----------------------------
     alleff = RepoEffects(prog, cg, kinds=("W", "RM", "CREATE"))
